@@ -88,13 +88,20 @@ func (o *OvsSet) UnmarshalJSON(b []byte) (err error) {
 		oSet = inter.([]interface{})
 		// it's a single uuid object
 		if len(oSet) == 2 && (oSet[0] == "uuid" || oSet[0] == "named-uuid") {
-			return addToSet(o, UUID{GoUUID: oSet[1].(string)})
+			uuid, ok := oSet[1].(string)
+			if !ok {
+				return &json.UnmarshalTypeError{Value: reflect.ValueOf(inter).String(), Type: reflect.TypeOf(*o)}
+			}
+			return addToSet(o, UUID{GoUUID: uuid})
 		}
-		if oSet[0] != "set" {
+		if len(oSet) != 2 || oSet[0] != "set" {
 			// it is a slice, but is not a set
 			return &json.UnmarshalTypeError{Value: reflect.ValueOf(inter).String(), Type: reflect.TypeOf(*o)}
 		}
-		innerSet := oSet[1].([]interface{})
+		innerSet, ok := oSet[1].([]interface{})
+		if !ok {
+			return &json.UnmarshalTypeError{Value: reflect.ValueOf(inter).String(), Type: reflect.TypeOf(*o)}
+		}
 		for _, val := range innerSet {
 			err := addToSet(o, val)
 			if err != nil {
